@@ -97,43 +97,43 @@ type h2 = func(*fasthttp.RequestCtx, int64)
 // The exported request handlers the query server routes to (pkg/server/query/entryHandlers.go).
 var handlers = map[string]interface{}{
 	// alerts + contact points
-	"alert.create":        h2(alertsHandler.ProcessCreateAlertRequest),
-	"alert.get":           h1(alertsHandler.ProcessGetAlertRequest),
-	"alert.all":           h2(alertsHandler.ProcessGetAllAlertsRequest),
-	"alert.update":        h1(alertsHandler.ProcessUpdateAlertRequest),
-	"alert.delete":        h1(alertsHandler.ProcessDeleteAlertRequest),
-	"alert.history":       h1(alertsHandler.ProcessAlertHistoryRequest),
-	"alert.silence":       h1(alertsHandler.ProcessSilenceAlertRequest),
-	"alert.unsilence":     h1(alertsHandler.ProcessUnsilenceAlertRequest),
-	"contact.create":      h2(alertsHandler.ProcessCreateContactRequest),
-	"contact.all":         h2(alertsHandler.ProcessGetAllContactsRequest),
-	"contact.update":      h1(alertsHandler.ProcessUpdateContactRequest),
-	"contact.delete":      h1(alertsHandler.ProcessDeleteContactRequest),
-	"dash.create":         h2(dashboards.ProcessCreateDashboardRequest),
-	"dash.get":            h2(dashboards.ProcessGetDashboardRequest),
-	"dash.update":         h2(dashboards.ProcessUpdateDashboardRequest),
-	"dash.delete":         h2(dashboards.ProcessDeleteDashboardRequest),
-	"dash.favorite":       h2(dashboards.ProcessFavoriteRequest),
-	"dash.list":           h2(dashboards.ProcessListAllItemsRequest),
-	"folder.create":       h2(dashboards.ProcessCreateFolderRequest),
-	"folder.get":          h2(dashboards.ProcessGetFolderContentsRequest),
-	"folder.update":       h2(dashboards.ProcessUpdateFolderRequest),
-	"folder.delete":       h2(dashboards.ProcessDeleteFolderRequest),
-	"folder.count":        h2(dashboards.ProcessGetFolderNestedCountRequest),
-	"usq.save":            h2(usq.SaveUserQueries),
-	"usq.all":             h2(usq.GetUserSavedQueriesAll),
-	"usq.delete":          h2(usq.DeleteUserSavedQuery),
-	"usq.search":          h2(usq.SearchUserSavedQuery),
-	"alias.put":           h2(eswriter.ProcessPutAliasesRequest),
-	"alias.post":          h2(eswriter.ProcessPostAliasesRequest),
-	"alias.get":           h2(eswriter.ProcessGetAlias),
-	"alias.all":           h2(eswriter.ProcessGetAllAliases),
-	"alias.ofIndex":       h2(eswriter.ProcessGetIndexAlias),
-	"alias.exists":        h2(eswriter.ProcessIndexAliasExist),
-	"lookup.upload":       h1(lookups.UploadLookupFile),
-	"lookup.all":          h1(lookups.GetAllLookupFiles),
-	"lookup.get":          h1(lookups.GetLookupFile),
-	"lookup.delete":       h1(lookups.DeleteLookupFile),
+	"alert.create":    h2(alertsHandler.ProcessCreateAlertRequest),
+	"alert.get":       h1(alertsHandler.ProcessGetAlertRequest),
+	"alert.all":       h2(alertsHandler.ProcessGetAllAlertsRequest),
+	"alert.update":    h1(alertsHandler.ProcessUpdateAlertRequest),
+	"alert.delete":    h1(alertsHandler.ProcessDeleteAlertRequest),
+	"alert.history":   h1(alertsHandler.ProcessAlertHistoryRequest),
+	"alert.silence":   h1(alertsHandler.ProcessSilenceAlertRequest),
+	"alert.unsilence": h1(alertsHandler.ProcessUnsilenceAlertRequest),
+	"contact.create":  h2(alertsHandler.ProcessCreateContactRequest),
+	"contact.all":     h2(alertsHandler.ProcessGetAllContactsRequest),
+	"contact.update":  h1(alertsHandler.ProcessUpdateContactRequest),
+	"contact.delete":  h1(alertsHandler.ProcessDeleteContactRequest),
+	"dash.create":     h2(dashboards.ProcessCreateDashboardRequest),
+	"dash.get":        h2(dashboards.ProcessGetDashboardRequest),
+	"dash.update":     h2(dashboards.ProcessUpdateDashboardRequest),
+	"dash.delete":     h2(dashboards.ProcessDeleteDashboardRequest),
+	"dash.favorite":   h2(dashboards.ProcessFavoriteRequest),
+	"dash.list":       h2(dashboards.ProcessListAllItemsRequest),
+	"folder.create":   h2(dashboards.ProcessCreateFolderRequest),
+	"folder.get":      h2(dashboards.ProcessGetFolderContentsRequest),
+	"folder.update":   h2(dashboards.ProcessUpdateFolderRequest),
+	"folder.delete":   h2(dashboards.ProcessDeleteFolderRequest),
+	"folder.count":    h2(dashboards.ProcessGetFolderNestedCountRequest),
+	"usq.save":        h2(usq.SaveUserQueries),
+	"usq.all":         h2(usq.GetUserSavedQueriesAll),
+	"usq.delete":      h2(usq.DeleteUserSavedQuery),
+	"usq.search":      h2(usq.SearchUserSavedQuery),
+	"alias.put":       h2(eswriter.ProcessPutAliasesRequest),
+	"alias.post":      h2(eswriter.ProcessPostAliasesRequest),
+	"alias.get":       h2(eswriter.ProcessGetAlias),
+	"alias.all":       h2(eswriter.ProcessGetAllAliases),
+	"alias.ofIndex":   h2(eswriter.ProcessGetIndexAlias),
+	"alias.exists":    h2(eswriter.ProcessIndexAliasExist),
+	"lookup.upload":   h1(lookups.UploadLookupFile),
+	"lookup.all":      h1(lookups.GetAllLookupFiles),
+	"lookup.get":      h1(lookups.GetLookupFile),
+	"lookup.delete":   h1(lookups.DeleteLookupFile),
 }
 
 // opHTTP invokes a handler on an in-memory request context.
@@ -236,7 +236,7 @@ func historyCount(d *alertsqlite.Sqlite, id string) (int, error) {
 type evalResult struct {
 	Runs     int  `json:"runs"`
 	Finished int  `json:"finished"`
-	Rows     int  `json:"rows"`    // history rows after the evaluation
+	Rows     int  `json:"rows"` // history rows after the evaluation
 	TimedOut bool `json:"timedOut"`
 }
 
